@@ -236,6 +236,8 @@ class CallInjector:
     def install(self):
         if self.installed:
             return
+        if MON.get_tool(TOOL_CALLS) is not None:
+            MON.free_tool_id(TOOL_CALLS)
         MON.use_tool_id(TOOL_CALLS, "verif-calls")
         MON.register_callback(TOOL_CALLS, MON.events.PY_START, self._on_start)
         MON.set_events(TOOL_CALLS, MON.events.PY_START)
@@ -310,6 +312,8 @@ class LineInjector:
 
     def install(self, functions):
         if not self.installed:
+            if MON.get_tool(TOOL_LINES) is not None:
+                MON.free_tool_id(TOOL_LINES)
             MON.use_tool_id(TOOL_LINES, "verif-lines")
             MON.register_callback(TOOL_LINES, MON.events.LINE, self._on_line)
             self.installed = True
